@@ -364,7 +364,7 @@ func runM(c *core.Ctx) int {
 	}
 	shards := c.Jobs
 	outs := core.ParallelMap(shards, shards, func(i int) *msim.Output {
-		o, trouble := mRunDriver(c, msim.Input{Prop: c.Prop, Tier: c.Tier, Seed: c.Seed, Shard: i, Shards: shards, N: (n + shards - 1) / shards, BudgetS: budget, Known: knownSigs}, fmt.Sprintf("s%d", i))
+		o, trouble := mRunDriver(c, msim.Input{Prop: c.Prop, Tier: c.Tier, Seed: c.Seed, Shard: i, Shards: shards, N: (n + shards - 1) / shards, BudgetS: budget, Known: knownSigs, Triage: os.Getenv("VERIF_ALL") != "", Focus: os.Getenv("VERIF_FOCUS")}, fmt.Sprintf("s%d", i))
 		if o == nil {
 			o = &msim.Output{Trouble: trouble}
 		}
@@ -402,6 +402,12 @@ func runM(c *core.Ctx) int {
 			first = o.Found
 		}
 		regs, unsupported = o.Regs, o.Unsupported
+		for _, cand := range o.Candidates {
+			if !res.Scheds["sig:"+cand.Sig()] {
+				res.Scheds["sig:"+cand.Sig()] = true
+				fmt.Printf("CANDIDATE %s\n    expected: %s\n    observed: %s\n", cand.Sig(), tailStr(cand.Expected, 300), tailStr(cand.Observed, 300))
+			}
+		}
 	}
 	skippedGen, skippedBuild := map[string]string{}, map[string]string{}
 	for _, u := range menv.units {
